@@ -17,12 +17,66 @@ import sem_oracle as so  # noqa: E402
 
 
 # ---------------------------------------------------------------- running the implementation
+IMPL_CPU_TIMEOUT = 20      # seconds of CPU time of the evaluating process (independent of machine load)
+IMPL_WALL_TIMEOUT = 900    # safety net only (a hanging external compiler)
+
+
+class _CpuTimeout(Exception):
+    pass
+
+
+def _on_vtalrm(signum, frame):
+    raise _CpuTimeout()
+
+
+def evaluate(text, backend=None, cpu_timeout=None, fn=None):
+    """Like pl.evaluate, but the time limit is CPU time of this process (ITIMER_VIRTUAL), so a loaded
+    machine cannot turn a slow run into a spurious 'Timeout'.  `fn` (optional) is run instead of the
+    default pipeline and must return the result dictionary."""
+    import signal
+
+    def go():
+        if fn is not None:
+            return fn()
+        from problog import get_evaluatable
+        from problog.program import PrologString
+        from problog.engine import DefaultEngine
+        from problog.formula import LogicFormula
+        eng = DefaultEngine()
+        db = eng.prepare(PrologString(text))
+        lf = LogicFormula.create_from(db, engine=eng)
+        kc = get_evaluatable(backend).create_from(lf)
+        return {str(k): v for k, v in kc.evaluate().items()}
+    old_v = signal.signal(signal.SIGVTALRM, _on_vtalrm)
+    old_a = signal.signal(signal.SIGALRM, _on_vtalrm)
+    signal.setitimer(signal.ITIMER_VIRTUAL, cpu_timeout or IMPL_CPU_TIMEOUT)
+    signal.alarm(IMPL_WALL_TIMEOUT)
+    try:
+        return ("ok", go())
+    except _CpuTimeout:
+        return ("err", "Timeout")
+    except BaseException as e:  # noqa
+        if isinstance(e, (KeyboardInterrupt, SystemExit)):
+            raise
+        return ("err", pl.err_class(e))
+    finally:
+        signal.setitimer(signal.ITIMER_VIRTUAL, 0)
+        signal.alarm(0)
+        signal.signal(signal.SIGVTALRM, old_v)
+        signal.signal(signal.SIGALRM, old_a)
+
+
 def impl_default(text):
-    return pl.evaluate(text, timeout=60)
+    return evaluate(text)
 
 
 def impl_ddnnf(text):
-    return pl.evaluate(text, backend="ddnnf", timeout=60)
+    return evaluate(text, backend="ddnnf")
+
+
+def impl_quick(text):
+    """short CPU limit: used while shrinking a non-termination"""
+    return evaluate(text, cpu_timeout=4)
 
 
 def impl_cli(text):
@@ -34,22 +88,22 @@ def impl_cli(text):
     try:
         env = dict(os.environ)
         env["PYTHONPATH"] = vf.REPO
-        p = subprocess.run([sys.executable, "-W", "ignore", os.path.join(vf.REPO, "problog-cli.py"), path],
-                           stdout=subprocess.PIPE, stderr=subprocess.STDOUT, text=True, timeout=120, env=env)
+        try:
+            p = subprocess.run([sys.executable, "-W", "ignore", os.path.join(vf.REPO, "problog-cli.py"), path],
+                               stdout=subprocess.PIPE, stderr=subprocess.STDOUT, text=True, timeout=900, env=env)
+        except subprocess.TimeoutExpired:
+            return ("err", "CLI-timeout")
         out = p.stdout
         res = {}
+        import re
         for line in out.split("\n"):
-            line = line.strip()
-            if not line:
+            line = line.rstrip()
+            if not line.strip():
                 continue
-            if "Error" in line or "error" in line or line.startswith("Traceback"):
+            m = re.match(r"^\s*(.*?):\s+([-+0-9.eE]+)\s*$", line)
+            if not m:
                 return ("err", cli_err_class(out))
-            if ":" in line:
-                k, _, v = line.rpartition(":")
-                try:
-                    res[k.strip().replace(" ", "")] = float(v)
-                except ValueError:
-                    return ("err", "CLI-unparsable:" + line[:60])
+            res[m.group(1).replace(" ", "")] = float(m.group(2))
         return ("ok", res)
     finally:
         os.unlink(path)
@@ -69,10 +123,13 @@ def one_oracle(ctx, prog, mode="fast"):
 
 
 # ---------------------------------------------------------------- comparison
-def kind_of(impl, ref):
+CLI_TOL = 2e-8   # the command line tool prints 8 decimals
+
+
+def kind_of(impl, ref, tol=1e-9):
     """Coarse kind of a disagreement (used to keep the SAME failure while shrinking):
     None = agree; otherwise a tuple."""
-    d = so.same(impl, ref)
+    d = so.same(impl, ref, tol)
     if d is None:
         return None
     if impl[0] == "err":
@@ -143,6 +200,28 @@ def feat_recursive_with_false_clause(prog):
     return False
 
 
+def feat_positive_cycle(prog):
+    """some ground atom depends positively on itself"""
+    _, pos, _ = ground_graph(prog)
+    return any(_reaches(pos, h, h) for h in pos)
+
+
+def feat_some_complementary_pair(prog):
+    gcs, _, _ = ground_graph(prog)
+    return any(has_complementary_pair(body) for _, _, body in gcs)
+
+
+def feat_negated_positive_loop_inside_positive_loop(prog):
+    """a ground clause instance h :- ..., \\+b, ... where h lies on a positive cycle and b lies on a
+    positive cycle (the program may still be perfectly stratified)"""
+    gcs, pos, _ = ground_graph(prog)
+    for _, hs, body in gcs:
+        for p, b in body:
+            if not p and _reaches(pos, b, b) and any(_reaches(pos, h, h) for h in hs):
+                return True
+    return False
+
+
 def feat_query_repeated_var(prog):
     for q in prog.queries():
         vs = gp.atom_vars(q)
@@ -163,6 +242,15 @@ def classify(prog, impl, ref):
         return "ad-body-depends-on-own-head-with-contradiction"
     if k[0] == "non-instance-reported" and feat_query_repeated_var(prog):
         return "query-repeated-variable-reports-non-instance"
+    if k[0] == "impl-error" and k[1] == "INTERNAL:AssertionError" and feat_positive_cycle(prog):
+        # same assertion (ResultSet.__setitem__ on a collapsed set), the FALSE conjunct is only semantic
+        return "false-result-to-cycle-parent-assertion"
+    if k[0] == "impl-error" and k[1] == "Timeout" and feat_positive_cycle(prog) and feat_some_complementary_pair(prog):
+        return "no-termination-recursive-clause-with-false-conjunct"
+    if k[0] == "impl-error" and k[1] == "NegativeCycle" and ref[0] != "err" or (
+            k[0] == "impl-error" and k[1] == "NegativeCycle" and ref[1] == "InconsistentEvidence"):
+        if feat_negated_positive_loop_inside_positive_loop(prog):
+            return "negative-cycle-false-alarm-negated-loop-under-active-loop"
     return None
 
 
@@ -177,3 +265,51 @@ def shrink_disagreement(ctx, prog, impl_fn, kind, max_steps=250):
             return False
         return kind_of(impl_fn(c.text()), ref) == kind
     return gp.shrink(prog, bad, max_steps=max_steps)
+
+
+# ---------------------------------------------------------------- reporting shared by C01/C02/C07/C08
+def load_corpus(prop):
+    import glob
+    import json
+    out = []
+    for path in sorted(glob.glob(os.path.join(vf.CORPUS, prop, "*.json"))):
+        with open(path) as f:
+            d = json.load(f)
+        out.append(gp.Prog.from_json(d) if "stmts" in d else gp.parse_simple(d["text"]))
+    return out
+
+
+def ref_json(ref):
+    return [ref[0], {k: str(v) for k, v in ref[1].items()} if ref[0] == "ok" else ref[1]]
+
+
+def report_vs_oracle(ctx, prog, impl, ref, via, state, impl_fn, tol=1e-9, extra=None):
+    """Judge one implementation outcome against the oracle outcome: on disagreement shrink (first of each
+    class, and everything unclassified), classify narrowly, ctx.violation.  Returns the class or None (agree)."""
+    k = kind_of(impl, ref, tol)
+    if k is None:
+        return None
+    klass = classify(prog, impl, ref)
+    n = state.get(("n", klass), 0)
+    state[("n", klass)] = n + 1
+    small, simpl, sref = prog, impl, ref
+    if (klass is None and n < 4) or n < 1:
+        fn = impl_quick if (impl[0] == "err" and impl[1] == "Timeout") else impl_fn
+        try:
+            small = shrink_disagreement(ctx, prog, fn, k, max_steps=ctx.n(120, 300))
+            simpl = fn(small.text())
+            sref = one_oracle(ctx, small)
+            if kind_of(simpl, sref, tol) != k:
+                small, simpl, sref = prog, impl, ref
+        except Exception as e:  # shrinking is best effort
+            ctx.notes.append("shrink failed: %r" % (e,))
+            small, simpl, sref = prog, impl, ref
+        klass = classify(small, simpl, sref)
+    what = "%s: %s on program: %s" % (via, so.same(simpl, sref, tol), small.text().replace("\n", " "))
+    ctx.count("violation-class:%s" % klass)
+    rep = {"program": small.to_json(), "via": via, "implementation": simpl, "semantics": ref_json(sref),
+           "original_program": prog.text()}
+    if extra:
+        rep.update(extra)
+    ctx.violation(what, rep, klass=klass)
+    return klass or "unclassified"
